@@ -126,7 +126,7 @@ Zero3 == <<QI(0), QI(0), QI(0)>>
 Half1 == <<1, 2>>
 VAdd(p_, q_) == <<QAdd(p_[1], q_[1]), QAdd(p_[2], q_[2]), QAdd(p_[3], q_[3])>>
 Case(n_) ==
-    LET kind_ == Pick(<<"bvp_s", "bvp_chan", "lin", "ivp_s", "robust_exact", "robust_smooth", "lap", "mol", "bvp_off", "bvp_s">>, n_)
+    LET kind_ == Pick(<<"bvp_s", "bvp_chan", "lin", "ivp_s", "robust_exact", "robust_smooth", "lap", "mol", "bvp_off", "robust_core">>, n_)
         m_ == n_ \div 10
         ctr_ == Pick(Centres, m_ \div 3)
         cs_ == Pick(CoefSets, m_ \div 2)
@@ -136,11 +136,11 @@ Case(n_) ==
         off_ == Pick(<< <<QI(0), QI(0), Q(1, 10)>>, <<Q(1, 10), Q(-1, 10), QI(0)>> >>, m_)
         sep_ == Pick(<<QI(8), QI(10), QI(7)>>, m_)
         nat_ == IF kind_ = "mol" THEN Pick(<<2, 2, 3>>, m_ \div 3)
-                ELSE IF kind_ \in {"robust_exact", "robust_smooth"} /\ m_ % 4 = 3 THEN 2 ELSE 1
+                ELSE IF kind_ \in {"robust_exact", "robust_smooth", "robust_core"} /\ m_ % 4 = 3 THEN 2 ELSE 1
         atoms_ == [j_ \in 1..nat_ |-> IF j_ = 1 THEN ctr_
                                        ELSE IF j_ = 2 THEN VAdd(ctr_, <<sep_, QI(0), QI(0)>>)
                                        ELSE VAdd(ctr_, <<QI(0), sep_, QI(0)>>)]
-        origin_ == IF kind_ \in {"bvp_s", "robust_exact", "robust_smooth"} /\ nat_ = 1 THEN Pick(Bool, m_ \div 2) ELSE FALSE
+        origin_ == IF kind_ \in {"bvp_s", "robust_exact", "robust_smooth", "robust_core"} /\ nat_ = 1 THEN Pick(Bool, m_ \div 2) ELSE FALSE
         g_ == IF origin_ THEN Pick(GridsOrigin, m_) ELSE Pick(GridsNoOrigin, m_)
         smoothEls_ == SelectSeq(ParamKeys, LAMBDA k_ : MaxAlphaOf(k_) <= 30000)
     IN [id |-> n_, kind |-> kind_, grid |-> g_, centre |-> ctr_, atoms |-> atoms_,
@@ -158,13 +158,15 @@ Case(n_) ==
         split2 |-> Pick(Bool, m_),
         sep |-> sep_,
         lin |-> <<Pick(<<QI(2), QI(-1), Q(1, 2)>>, m_), Pick(<<QI(-3), QI(1), QI(2)>>, m_ \div 3)>>,
-        terms |-> CASE kind_ \in {"bvp_s", "ivp_s", "robust_smooth", "mol"} -> sterms_
+        \* robust_exact: rho = fitted core model of the elements; robust_core: core model + terms;
+        \* robust_smooth: terms only (the solver still subtracts the core model)
+        terms |-> CASE kind_ \in {"bvp_s", "ivp_s", "robust_smooth", "robust_core", "mol"} -> sterms_
                     [] kind_ = "bvp_chan" -> sterms_ \o (IF m_ % 2 = 0 THEN <<l1_>> ELSE <<l1_, l2_>>)
                     [] kind_ = "lin" -> << sterms_[1], l1_ >>
                     [] kind_ = "lap" -> (IF m_ % 2 = 0 THEN << sterms_[1] >> ELSE << sterms_[1], l1_ >>)
                     [] kind_ = "bvp_off" -> << STerm(QI(1), Pick(<<Half1, QOne>>, m_), off_) >>
                     [] OTHER -> << >>]
-NCases == 200
+NCases == 600
 
 \* admissibility of a case: exponents inside the envelope, displacement small against the band
 \* limit of the angular grid (alpha |d| <= 1/5), molecule centres >= 6 bohr apart
